@@ -139,6 +139,9 @@ func GenC02(r *hx.Rng, tier string, w io.Writer) {
 		if tier != "thorough" && count%6 != int(r.U64()%6) && count > 1 {
 			return // quick: a sixth of the orders, chosen by the seed
 		}
+		if tier == "thorough" && count%3 != int(r.Seed%3) && count > 1 {
+			return // thorough: all 8! orders, a third per seed (the tier runs three consecutive seeds)
+		}
 		g.reset(1)
 		for _, k := range shape {
 			g.produce(k)
@@ -151,7 +154,7 @@ func GenC02(r *hx.Rng, tier string, w io.Writer) {
 	n := 40
 	maxBlocks := 8
 	if tier == "thorough" {
-		n, maxBlocks = 500, 30
+		n, maxBlocks = 300, 24
 	}
 	for i := 0; i < n; i++ {
 		g.reset([]uint64{1, 1, 2, 5}[r.Intn(4)])
